@@ -291,6 +291,60 @@ pub proof fn lemma_no_hit(p: &Partition, start: int, count: int, end: int)
     assert(!seg_hits(segs, 0, start, end));
     lemma_slice_window(log(p), first_retained(p), start, start + count - 1);
 }
+// index arithmetic of windows, on plain sequences
+// a part of a contiguous run that contains the start of the range and (unless it reaches the end of the run) its end
+pub proof fn lemma_window_inside(l: Seq<RetainedMessage>, f: int, dl: Seq<RetainedMessage>, p0: int, start: int, count: int)
+    requires
+        0 <= p0, p0 + dl.len() <= l.len(), dl == l.subrange(p0, p0 + dl.len()),
+        f + p0 <= start, count >= 1,
+        p0 + dl.len() == l.len() || start + count <= f + p0 + dl.len(),
+    ensures window(dl, f + p0, start, start + count - 1) == window(l, f, start, start + count - 1),
+{
+    let a = clip(start - (f + p0), dl.len() as int); let b = clip(start + count - (f + p0), dl.len() as int);
+    let a2 = clip(start - f, l.len() as int); let b2 = clip(start + count - f, l.len() as int);
+    assert(a <= b && a2 <= b2);
+    assert(a2 == p0 + a && b2 == p0 + b);
+    assert(dl.subrange(a, b) =~= l.subrange(a2, b2));
+}
+// a prefix of a contiguous run, read from its first message, for a range that starts below the run
+pub proof fn lemma_window_below(l: Seq<RetainedMessage>, f: int, dl: Seq<RetainedMessage>, start: int, count: int)
+    requires
+        dl.len() <= l.len(), dl == l.subrange(0, dl.len() as int), start < f, count >= 1,
+        dl.len() == l.len() || start + count <= f + dl.len(),
+    ensures ({
+        let r = window(dl, f, f, f + count - 1);
+        r.len() <= count && r.len() <= l.len() && r == l.subrange(0, r.len() as int) && window(l, f, start, start + count - 1).len() <= r.len()
+    }),
+{
+    let b = clip(count, dl.len() as int);
+    let r = window(dl, f, f, f + count - 1);
+    assert(r == dl.subrange(0, b));
+    assert(r =~= l.subrange(0, b));
+    let b2 = clip(start + count - f, l.len() as int);
+    assert(window(l, f, start, start + count - 1) == l.subrange(0, b2));
+}
+// integer consequences of "lo..hi are exactly the intersecting segments"
+pub proof fn lemma_hit_bounds(segs: Seq<Segment>, lo: int, hi: int, start: int, end: int)
+    requires segs_wf(segs), hit_range(segs, start, end, lo, hi), lo < hi,
+    ensures
+        hi < segs.len() ==> segs[hi].start_offset > end,
+        start < segs[0].start_offset ==> lo == 0,
+{
+    let n = segs.len() as int;
+    assert(seg_hits(segs, lo, start, end));
+    if hi < n {
+        assert(!seg_hits(segs, hi, start, end));
+        if hi + 1 < n {
+            if lo + 1 < hi + 1 { lemma_sorted_ij(segs, lo + 1, hi + 1); }
+            assert(segs[hi + 1].start_offset > start);
+        }
+    }
+    if start < segs[0].start_offset && lo > 0 {
+        assert(!seg_hits(segs, 0, start, end));
+        lemma_sorted_ij(segs, 0, lo);
+        lemma_sorted_ij(segs, 0, 1);
+    }
+}
 // the segments lo..hi are exactly those whose range intersects [start, end]: reading `count` messages from
 // max(start, first of them) out of their concatenation is the requested slice (start inside the log), or a run from the
 // earliest retained message that covers the requested range (start below the log)
@@ -310,40 +364,31 @@ pub proof fn lemma_segment_path(p: &Partition, lo: int, hi: int, start: int, cou
     let segs = p.segments@; let n = segs.len() as int;
     let d = segs.subrange(lo, hi); let dl = log_upto(d, hi - lo);
     let l = log(p); let f = first_retained(p);
-    let m = max_int(start, d[0].start_offset as int);
+    let slo = segs[lo].start_offset as int;
+    let m = max_int(start, slo);
     let h = start + count - 1;
     lemma_log_facts(p);
     lemma_sub_wf(segs, lo, hi);
     lemma_log_range(segs, lo, hi);
+    lemma_hit_bounds(segs, lo, hi, start, end);
     assert(d[0] == segs[lo]);
-    let slo = segs[lo].start_offset as int;
+    assert(l == log_upto(segs, n));
+    let p0 = slo - f;
+    assert(dl == l.subrange(p0, p0 + dl.len()));
+    // unless the range of segments reaches the end of the log, the requested range ends before the next segment
+    assert(p0 + dl.len() == l.len() || start + count <= f + p0 + dl.len()) by {
+        if hi < n {
+            assert(segs[hi].start_offset <= last_seg(p).start_offset) by { if hi < n - 1 { lemma_sorted_ij(segs, hi, n - 1); } }
+            assert(end == h);
+            assert(seg_end(segs, hi - 1) == segs[hi].start_offset);
+        }
+    }
     lemma_slice_window(dl, slo, m, m + count - 1);
     lemma_slice_window(l, f, start, h);
-    // the first segment after the range starts above the requested end
-    if hi < n {
-        assert(!seg_hits(segs, hi, start, end));
-        assert(seg_hits(segs, lo, start, end));
-        if hi + 1 < n { assert(segs[lo + 1].start_offset <= segs[hi + 1].start_offset) by { if lo + 1 < hi + 1 { lemma_sorted_ij(segs, lo + 1, hi + 1); } } }
-        assert(segs[hi].start_offset > end);
-        assert(segs[hi].start_offset <= last_seg(p).start_offset) by { if hi < n - 1 { lemma_sorted_ij(segs, hi, n - 1); } }
-        assert(end == h);
-        assert(seg_end(segs, hi - 1) == segs[hi].start_offset);
-    }
     if start >= f {
-        assert(m == start);
-        assert(window(dl, slo, m, m + count - 1) =~= window(l, f, start, h));
+        lemma_window_inside(l, f, dl, p0, start, count);
     } else {
-        // below the earliest retained offset: the range of intersecting segments starts with the first segment
-        if lo > 0 {
-            assert(!seg_hits(segs, 0, start, end));
-            assert(seg_hits(segs, lo, start, end));
-            lemma_sorted_ij(segs, 0, lo);
-            if 1 < n { lemma_sorted_ij(segs, 0, 1); }
-        }
-        assert(lo == 0);
-        assert(m == f);
-        let r = window(dl, slo, m, m + count - 1);
-        assert(r =~= l.subrange(0, r.len() as int));
+        lemma_window_below(l, f, dl, start, count);
     }
 }
 
